@@ -37,8 +37,8 @@ def forced_schedules(rep, tier, wd):
     schedules = [p[1] for p in r.printed if p[0] == "schedule"]
     if tier == "quick":
         schedules = schedules[::3]
-    t = _tables(wd, rep, LazyC=True, LazyInner=True)
-    plans = [("to", "none"), ("from", "none"), ("to", "D1")]
+    t = _tables(wd, rep, LazyC=True)          # exactly one lazily compiled method per call: the modelled points are the only ones
+    plans = [("to", "none"), ("from", "none")]
     n = desync = 0
     for si, s in enumerate(schedules):
         direction, d = plans[si % len(plans)]
